@@ -89,27 +89,44 @@ def pokeData (m : Mem) (a : Nat) (w : Nat) : WOut :=
 let mut read_reminder = read_n as isize;
 let mut addr = addr as *mut c_long;
 while read_reminder > 0 {
-    let value = sys::ptrace::read(pid, addr)?;
-    result.extend(value.to_ne_bytes().into_iter().take(read_reminder as usize));
+    let want = (read_reminder as usize).min(single_read_size);
+    match sys::ptrace::read(pid, addr) {
+        Ok(value) => result.extend(value.to_ne_bytes().into_iter().take(want)),
+        Err(e) if want < single_read_size => {
+            let word_addr = (addr as usize + want).checked_sub(single_read_size).ok_or(e)?;
+            let value = sys::ptrace::read(pid, word_addr)?;
+            result.extend(value.to_ne_bytes().into_iter().skip(single_read_size - want));
+        }
+        Err(e) => return Err(e),
+    }
     read_reminder -= 8;
     addr = addr.offset(1);
 }
 ```
-`read_reminder` is an `isize` that may go negative on the last round; the model keeps a `Nat` with
-truncated subtraction, which is the same for the loop test (`> 0`) and for `take`. -/
+Whole words are peeked at `addr`.  The final partial word (`want < 8`, necessarily the last round) is
+peeked at `addr` too; when that fails (the word runs past the end of the mapping) the word that ENDS at
+the end of the requested range is peeked instead and its last `want` bytes are taken.  `read_reminder` is
+an `isize` that goes negative after a partial word; the model stops there. -/
 def readLoop (m : Mem) (addr : Nat) (rem : Nat) (acc : List Byte) : Option (List Byte) :=
   if rem = 0 then some acc
-  else
+  else if 8 ≤ rem then
     match peek m addr with
     | none => none
-    | some w => readLoop m (addr + 8) (rem - 8) (acc ++ (wordBytes 8 w).take rem)
+    | some w => readLoop m (addr + 8) (rem - 8) (acc ++ wordBytes 8 w)
+  else
+    match peek m addr with
+    | some w => some (acc ++ (wordBytes 8 w).take rem)
+    | none =>
+      -- `checked_sub`: no word ends at `addr + rem` when that is below 8
+      if addr + rem < 8 then none
+      else
+        match peek m (addr + rem - 8) with
+        | none => none
+        | some w => some (acc ++ (wordBytes 8 w).drop (8 - rem))
 termination_by rem
 decreasing_by all_goals (simp_wf; omega)
 
 def readMemory (m : Mem) (addr : Nat) (n : Nat) : Option (List Byte) := readLoop m addr n []
-
-/-- number of bytes the implementation touches for a read of `n` bytes: `8 * ceil(n / 8)` -/
-def readSpan (n : Nat) : Nat := 8 * ((n + 7) / 8)
 
 /-! ## DAP `write_bytes` (writeMemory, setVariable, setExpression)
 
@@ -222,14 +239,15 @@ def kernelFieldOf (r : Nat) : Option Nat :=
 
 ```
 breakpoints.iter()
-    .filter(|brkpt| brkpt.addr >= fn_reloc_pc_start && brkpt.addr <= fn_reloc_pc_end)
+    .filter(|brkpt| brkpt.addr >= fn_reloc_pc_start && brkpt.addr < fn_reloc_pc_end)
     .for_each(|brkpt| {
         let byte_idx = usize::from(brkpt.addr) - usize::from(fn_reloc_pc_start);
         text[byte_idx] = brkpt.saved_data.get();
     });
 ```
-`text` has `end - start` bytes; the filter is inclusive at `end`, so `text[byte_idx]` can be out of
-bounds: an explicit outcome. -/
+`text` has `end - start` bytes and the filter is exclusive at `end` (it was inclusive before the repair:
+a breakpoint exactly at the end address indexed one past the text).  The slice index stays an explicit
+outcome of the model; `C15_disasm_total` proves it unreachable. -/
 structure Bp where
   addr : Nat
   saved : Byte
@@ -239,7 +257,7 @@ inductive Fault where
   deriving Repr, DecidableEq
 
 def maskOne (start stop : Nat) (text : List Byte) (bp : Bp) : Except Fault (List Byte) :=
-  if start ≤ bp.addr ∧ bp.addr ≤ stop then
+  if start ≤ bp.addr ∧ bp.addr < stop then
     let idx := bp.addr - start
     if idx < text.length then .ok (text.set idx bp.saved) else .error (.oob idx text.length)
   else .ok text
@@ -255,7 +273,8 @@ def maskPatches (start stop : Nat) (text : List Byte) : List Bp → Except Fault
 
 `parse_int_i128` / `parse_int_u128`: optional `0x`/`0X` prefix, then `from_str_radix` (one optional
 sign — `-` only for the signed parser —, at least one digit, overflow of the 128-bit type is an
-error), then an `as` cast to the target width (truncation!) and `to_le_bytes`. -/
+error), then `<target>::try_from` (a value that does not fit the variable's type is refused; before the
+repair it was truncated by an `as` cast) and `to_le_bytes`. -/
 inductive IntKind where
   | i8 | i16 | i32 | i64 | i128 | isize | u8 | u16 | u32 | u64 | u128 | usize
   deriving Repr, DecidableEq
@@ -317,11 +336,22 @@ def isAsciiSpace (c : Char) : Bool := c == ' ' || c == '\t' || c == '\n' || c ==
 def trim (s : List Char) : List Char :=
   ((s.dropWhile isAsciiSpace).reverse.dropWhile isAsciiSpace).reverse
 
-/-- integer kinds of `parse_set_value`: the 128-bit value is cast with `as` (wraps modulo `2^bits`) -/
+/-- the values of the integer type `k` -/
+def IntKind.inRange (k : IntKind) (i : Int) : Prop :=
+  if k.signed then - (2 ^ (8 * k.bytes - 1) : Int) ≤ i ∧ i < 2 ^ (8 * k.bytes - 1)
+  else 0 ≤ i ∧ i < 2 ^ (8 * k.bytes)
+
+instance (k : IntKind) (i : Int) : Decidable (k.inRange i) := by
+  unfold IntKind.inRange
+  infer_instance
+
+/-- integer kinds of `parse_set_value`: the 128-bit value is converted with `try_from` (for the two 128-bit
+kinds there is no conversion: the parser's own range is the type's range) -/
 def parseSetInt (k : IntKind) (input : List Char) : Option (List Byte) :=
   match parseInt k.signed (trim input) with
   | none => none
-  | some i => some (wordBytes k.bytes (i % (2 ^ (8 * k.bytes) : Nat)).toNat)
+  | some i =>
+    if k.inRange i then some (wordBytes k.bytes (i % (2 ^ (8 * k.bytes) : Nat)).toNat) else none
 
 /-- `ScalarKind::Bool` -/
 def parseSetBool (input : List Char) : Option (List Byte) :=
@@ -335,8 +365,5 @@ def decodeInt (k : IntKind) (bs : List Byte) : Int :=
   let u := leWord bs
   if k.signed ∧ u ≥ 2 ^ (8 * k.bytes - 1) then (u : Int) - (2 ^ (8 * k.bytes) : Nat) else u
 
-def IntKind.inRange (k : IntKind) (i : Int) : Prop :=
-  if k.signed then - (2 ^ (8 * k.bytes - 1) : Int) ≤ i ∧ i < 2 ^ (8 * k.bytes - 1)
-  else 0 ≤ i ∧ i < 2 ^ (8 * k.bytes)
 
 end BsVerif.MemIO
